@@ -97,7 +97,7 @@ RunSE(cfg, table, input) ==
       final == IF cfg.rename = <<>> THEN named ELSE [named EXCEPT !.name = Expand2(cfg.rename, env, env, env, 1)]
       fate == Fate(cfg, final, final, st.ms # <<>>, FALSE)
   IN [o1 |-> final, o2 |-> final, ms1 |-> st.ms, ms2 |-> <<>>, isrc |-> st.isrc, fate |-> fate,
-      dest |-> Destination(cfg, fate, st.ms, <<>>), pre1 |-> pre, s1 |-> st.searched,
+      dest |-> Destination(cfg, fate, st.ms, <<>>), pre1 |-> pre, s1 |-> st.searched, s2 |-> <<>>,
       pa1 |-> IF cfg.polya THEN Len(st.r.seq) - Len(PolyAStage(st.r, FALSE).seq) ELSE 0, pa2 |-> 0]
 
 RunPE(cfg, table, in1, in2) ==
@@ -117,7 +117,7 @@ RunPE(cfg, table, in1, in2) ==
       o2 == IF cfg.rename = <<>> THEN n2 ELSE [n2 EXCEPT !.name = Expand2(cfg.rename, f1, f2, f2, 1)]
       fate == Fate(cfg, o1, o2, st.ms1 # <<>>, st.ms2 # <<>>)
   IN [o1 |-> o1, o2 |-> o2, ms1 |-> st.ms1, ms2 |-> st.ms2, isrc |-> st.isrc, fate |-> fate,
-      dest |-> Destination(cfg, fate, st.ms1, st.ms2), pre1 |-> p1, s1 |-> st.s1,
+      dest |-> Destination(cfg, fate, st.ms1, st.ms2), pre1 |-> p1, s1 |-> st.s1, s2 |-> st.s2,
       pa1 |-> IF cfg.polya THEN Len(st.r1.seq) - Len(PolyAStage(st.r1, FALSE).seq) ELSE 0,
       pa2 |-> IF cfg.polya THEN Len(st.r2.seq) - Len(PolyAStage(st.r2, TRUE).seq) ELSE 0]
 
@@ -125,6 +125,20 @@ Needs(cfg, table, in1, in2) ==
   IF cfg.paired THEN NeedsPE(cfg, table, PreAdapter(cfg, in1, FALSE), PreAdapter(cfg, in2, TRUE))
   ELSE NeedsSE(cfg, table, PreAdapter(cfg, in1, FALSE))
 Run(cfg, table, in1, in2) == IF cfg.paired THEN RunPE(cfg, table, in1, in2) ELSE RunSE(cfg, table, in1)
+
+\* ---- per-adapter tallies over the applied matches (C20) ----
+\* For the k-th applied match of a read: the entries it contributes, as records
+\*   [ad, end ("f" | "b"), len (removed length), errors, adj (adjacent base code or 0)]
+AdjBase(s, rs) == IF rs = 0 THEN 0 ELSE IF s[rs] \in {65, 67, 71, 84} THEN s[rs] ELSE 0
+TallyOfMatch(m, searchedK) ==
+  (IF m.hasF THEN {[ad |-> m.ad, end |-> "f", len |-> m.f.re, errors |-> m.f.errors, adj |-> 0]} ELSE {})
+  \cup (IF m.hasB
+        THEN LET s2 == IF m.hasF THEN Slice(searchedK, m.f.re, Len(searchedK)) ELSE searchedK
+             IN {[ad |-> m.ad, end |-> "b", len |-> m.b.len - m.b.rs, errors |-> m.b.errors, adj |-> AdjBase(s2, m.b.rs)]}
+        ELSE {})
+\* all entries of one read, tagged with the round so that equal entries stay distinct: <<round, entry>>
+ReadTally(ms, searched) ==
+  UNION {{<<k, t>> : t \in TallyOfMatch(ms[k], SearchedInRound(searched, ms, k))} : k \in 1..Len(ms)}
 
 \* ---- info-file rows the property prescribes for mate 1 (C17) ----
 \* a part row: [suffix, errors, rs, re, name]; parts of round k refer to the sequence left by round k-1
